@@ -60,7 +60,7 @@ ASSUMPTIONS = [
     'audit_meta is used only as a second opinion; it raises KeyError on '
     'boundary files that carry NROWS/NCOLS (counted as audit-raised)']
 BUDGET = {'quick': dict(examples=2400, max_s=240, shrink_cap=250),
-          'thorough': dict(examples=40000, max_s=3000, shrink_cap=400)}
+          'thorough': dict(examples=30000, max_s=3000, shrink_cap=400)}
 
 REDUCERS = ('mean', 'sum', 'min', 'max', 'std')
 CALLABLES = {
